@@ -116,6 +116,7 @@ var c09Templates = []string{
 	"@for(i = 0; i < 2; i++){{ a }}@end", "@for(a; b; a)x@break@end", "@for(a; false; a)x@end", "@for(a; a < 1; a++)x@break@end", "@for(a; a == \"\"; a + \"x\")y@break@end",
 	"@for(; false; )x@end", "@for(i = 0; ; i++)@break@end", "@for(i = 0; i < 1; )@break@end", "@for(;;)@break@end",
 	"@for(i = 0; i < 3; i++)@breakIf(b)x@end",
+	"@for(i = 0; ; i++)@break@else e@end", "@for(;;)@break@else e@end", "@for(; false; )x@else e@end", "@for(i = 0; i < 1; )@break@else e@end", "@for(; a; )@break@else e@end",
 	"@each(v in [1, 2])@continueIf(a)x@end",
 	"@dump(a, b)", "{{ [a, b] }}", "{{ {x: a, y: b} }}", "{{ {a, b}.a }}",
 	"{{ [a][0] }}", "{{ [a][b] }}", "{{ a.at(b) }}", "{{ a.slice(b) }}", "{{ a.then(b) }}",
